@@ -9,6 +9,9 @@ import ParryModel.C08.Theorems3
 import ParryModel.C08.Theorems4
 import ParryModel.C08.Theorems5
 import ParryModel.C08.Theorems6
+import ParryModel.C08.Theorems7
+import ParryModel.C08.Theorems8
+import ParryModel.C08.Theorems9
 /-!
 # C08 property theorems: the QBVH stays valid under any history
 
